@@ -436,9 +436,9 @@ def c17(ctx):
         if not x:
             continue
         ctx.report.evaluations += 1
-        if x["max_s"] > 5.0 + len(b) / 20_000:  # promptly: a constant plus time in proportion to the input (50 us per byte, traced) -- CPU seconds of the parsing process
+        if x["max_s"] > x.get("budget_s", 5.0 + len(b) / 20_000):  # promptly: a constant plus time in proportion to the input -- CPU seconds of the parsing process, in units calibrated at that moment (hostile_worker.calibrate)
             out.append({"family": "PA", "mode": "hostile", "bytes": hx(b), "corresponds": True, "impl": x, "model": [],
-                        "property_violation": {"what": f"parsing took {x['max_s']:.1f}s of CPU time"}, "signature": {}})
+                        "property_violation": {"what": f"parsing took {x['max_s']:.1f}s of CPU time (budget {x.get('budget_s')}s at {x.get('cpu_rate_us_per_byte')} us per byte of a benign input)"}, "signature": {}})
         if any(v in ("err:MemoryError", "hang") for v in x["outcomes"].values()):
             out.append({"family": "PA", "mode": "hostile", "bytes": hx(b), "corresponds": True, "impl": x, "model": [],
                         "property_violation": {"what": f"a {len(b)}-byte input exhausted memory or time: {x['outcomes']}"}, "signature": {}})
